@@ -3,6 +3,7 @@ import PhysisModel.Generated.ExcelCodes
 import PhysisModel.Proofs.ExcelRootList
 import PhysisModel.Proofs.ExcelArchive
 import PhysisModel.Spec.Deflate
+import PhysisModel.Proofs.BinrwTieExcel
 /-!
 # C05 — Excel sheets decode to the cell values stored in them
 
@@ -604,5 +605,55 @@ theorem c05_code_tables :
     | packedBool b => revert b; decide
     | _ => rfl
   · intro l; cases l <;> exact ⟨rfl, rfl⟩
+
+end Physis.C05
+
+/-! ### T4: binrw declarations regenerated from the source
+
+`Generated/BinrwExcel.lean` is re-translated from the `#[binrw]` declarations of `src/exh.rs` and
+`src/exd.rs` (big-endian) on every run (`lib/binrw2lean.py`); the `ParserBE.P` readers of
+`Model/Exh.lean` / `Model/Exd.lean`, applied to their input, are `Layout.read` of the regenerated
+descriptors followed by a pure projection (`Proofs/BinrwTieExcel.lean`), for all inputs.  The ambient
+endianness `.little` in the statements is deliberately the wrong one: the structs' own
+`#[brw(big)]` (regenerated) decides. -/
+namespace Physis.C05
+open Physis.Binrw Physis.Generated
+
+theorem c05_binrw_EXHHeader (l : Bytes) :
+    Exh.pHeader l = via BinrwTie.Excel.exhHeaderOf (Layout.read .little BinrwExcel.eXHHeader l) :=
+  BinrwTie.Excel.pHeader_eq_generated l
+
+theorem c05_binrw_ExcelDataPagination (l : Bytes) :
+    Exh.pPage l = via BinrwTie.Excel.pageOf (Layout.read .little BinrwExcel.excelDataPagination l) :=
+  BinrwTie.Excel.pPage_eq_generated l
+
+/-- `#[br(count = n)] Vec<ExcelDataPagination>` -/
+theorem c05_binrw_ExcelDataPagination_vec (n : Nat) (l : Bytes) :
+    ParserBE.count Exh.pPage n l =
+      (repeatN (Kind.read .little [] (.struct BinrwExcel.excelDataPagination)) n l).bind fun vs =>
+        (projAll BinrwTie.Excel.pageOfV vs.1).map (·, vs.2) :=
+  BinrwTie.Excel.countPage_eq_generated n l
+
+theorem c05_binrw_ExcelDataOffset (l : Bytes) :
+    Exd.pDataOffset l = via BinrwTie.Excel.dataOffsetOf (Layout.read .little BinrwExcel.excelDataOffset l) :=
+  BinrwTie.Excel.pDataOffset_eq_generated l
+
+/-- `#[br(count = n)] Vec<ExcelDataOffset>` -/
+theorem c05_binrw_ExcelDataOffset_vec (n : Nat) (l : Bytes) :
+    ParserBE.count Exd.pDataOffset n l =
+      (repeatN (Kind.read .little [] (.struct BinrwExcel.excelDataOffset)) n l).bind fun vs =>
+        (projAll BinrwTie.Excel.dataOffsetOfV vs.1).map (·, vs.2) :=
+  BinrwTie.Excel.countDataOffset_eq_generated n l
+
+/-- `EXD`: the regenerated `EXDHeader` (magic `EXDF`, version, pad 2, index_size, pad 20), then
+`index_size / 8` offsets (the `count` expression itself is not translated) -/
+theorem c05_binrw_EXDHeader (l : Bytes) :
+    Exd.pExdHead l =
+      (Layout.read .little BinrwExcel.eXDHeader l).bind fun x =>
+        match x.1 with
+        | [.w16 .u16 version, .w32 .u32 indexSize] =>
+          (ParserBE.count Exd.pDataOffset (indexSize / 8).toNat x.2).map fun o => ((version, indexSize, o.1), o.2)
+        | _ => none :=
+  BinrwTie.Excel.pExdHead_eq_generated l
 
 end Physis.C05
